@@ -178,6 +178,17 @@ func Injections(base Tagged) []Injection {
 			cs = append(cs, im.Conds[pos:]...)
 			im.Conds = cs
 			add("duplicate-condition", fmt.Sprintf("%s@%d", c.Name, pos), im, ref.MarkC(pos))
+			// the same with an empty body (the grammar allows it) in the first, the second, both definitions
+			for v, empties := range [][2]bool{{true, false}, {false, true}, {true, true}} {
+				em := cloneModel(im)
+				if empties[0] {
+					em.Conds[ci].Expr = ""
+				}
+				if empties[1] {
+					em.Conds[pos].Expr = ""
+				}
+				add("duplicate-condition", fmt.Sprintf("%s@%d/empty-body-%d", c.Name, pos, v), em, ref.MarkC(pos))
+			}
 		}
 		// 6b. duplicate parameter
 		for pi, p := range c.Params {
